@@ -343,3 +343,22 @@ func (s Scramble) Apply(qf qframe.QFrame) qframe.QFrame {
 	}
 	return qf
 }
+
+// DrawBigFrame draws a frame of a few thousand rows whose cells are computed
+// from a sub-stream key (size thresholds: output buffers, chunked writes).
+func DrawBigFrame(t *rapid.T, minRows, maxRows int) *FrameSpec {
+	n := rapid.IntRange(minRows, maxRows).Draw(t, "bigrows")
+	r := core.NewSplitMix(rapid.Uint64().Draw(t, "bigkey"))
+	fs := &FrameSpec{NRows: n}
+	a := ColSpec{Name: "a", Type: "int", Ints: make([]int, n)}
+	b := ColSpec{Name: "b", Type: "string", Strs: make([]*string, n)}
+	c := ColSpec{Name: "c", Type: "float", Floats: make([]float64, n)}
+	for i := 0; i < n; i++ {
+		a.Ints[i] = int(r.Uint64()%2000) - 1000
+		s := strPool[r.Intn(len(strPool))] + strconv.Itoa(i%97)
+		b.Strs[i] = &s
+		c.Floats[i] = []float64{0, 1.5, -2.25, 0.1, 1e21, 123456789.125, -1}[r.Intn(7)]
+	}
+	fs.Cols = []ColSpec{a, b, c}
+	return fs
+}
